@@ -212,10 +212,10 @@ func c03Routed(msg messages.Common, err error) (res string, alive bool) {
 			return fmt.Sprintf("code:%d", int(code)), true
 		}
 		s := err.Error()
-		if !strings.HasPrefix(s, "parsing message") {
-			if strings.HasPrefix(s, "wrong bits of message_id") {
-				return "err:parity2", true
-			}
+		if strings.HasPrefix(s, "wrong bits of message_id") {
+			return "err:parity2", true
+		}
+		if envStreamErr(err) {
 			e := strings.ToLower(s)
 			broken := strings.Contains(e, "eof") || strings.Contains(e, "closed") || strings.Contains(e, "timeout") || strings.Contains(e, "reset")
 			return "err:transport(" + strings.ReplaceAll(s, " ", "_") + ")", !broken
